@@ -422,6 +422,22 @@ theorem gasPerBlock_cache_coherent (v0 : Int) (steps : List (EComp.EStep Guarded
   have hg := Guarded.gpb_erun_good steps { store := [(0, v0)], cache := [(0, v0)], height := 0 } (Guarded.gpb_genesis_good v0)
   rw [Guarded.gpbLookup_spec hg, Guarded.gpbLookup_spec (Guarded.gpb_init hg)]
 
+/-- (C01, what GetGASPerBlock must compute on the append-only cache; seeded change C01-m8 replaced the backward scan by a
+    binary search that returns the FIRST exact match) The lookup returns the LAST record with index ≤ i: a record
+    appended with index ≤ i wins over everything appended before — in particular of two records of the same index
+    (two setGasPerBlock in one block) the later one, the value storage keeps under that index —, a record appended
+    with a greater index is invisible. -/
+theorem gasPerBlock_lookup_is_last_record (l : List (Nat × Int)) (k : Nat) (a b : Int) (i : Nat) :
+    (k ≤ i → gpbLookup (l ++ [(k, b)]) i = some b) ∧
+    (i < k → gpbLookup (l ++ [(k, b)]) i = gpbLookup l i) ∧
+    (k ≤ i → gpbLookup (l ++ [(k, a), (k, b)]) i = some b ∧ aget (aput (aput l k a) k b) k = some b) :=
+  ⟨Guarded.gpbLookup_append_le l k b i, Guarded.gpbLookup_append_gt l k b i,
+   fun h => ⟨by
+     have : l ++ [(k, a), (k, b)] = (l ++ [(k, a)]) ++ [(k, b)] := by simp
+     rw [this]; exact Guarded.gpbLookup_append_le _ k b i h, aget_aput_same _ _ _⟩⟩
+
+example : gpbLookup [(0, 5), (3, 7), (3, 8)] 3 = some 8 ∧ gpbLookup [(0, 5), (3, 7), (3, 8)] 2 = some 5 := by decide
+
 -- two sets in one block: cache and restarted cache differ as lists, every lookup agrees (instance of the theorem)
 example :
     let e : Guarded.Env := { committee := [(0, 0)], validators := 1 }
